@@ -42,7 +42,11 @@ RL_STATS = []  # (rlimit count, cpu seconds) per solver call, for calibration
 def _checked(s):
     """s.check() with resource accounting."""
     c0 = time.process_time()
-    r = s.check()
+    try:
+        r = s.check()
+    except z3.Z3Exception as e:  # memory cap reached (or the solver gave up another way): undecided, never a verdict
+        RL_STATS.append((0, time.process_time() - c0, "unknown:" + str(e)[:60]))
+        return z3.unknown
     try:
         st = s.statistics()
         rl = next((st.get_key_value(k) for k in st.keys() if k == "rlimit count"), 0)
@@ -56,6 +60,9 @@ def _checked(s):
 
 
 _RL_LAST = 0
+# a hard cap on the solver's memory: a query that needs more is reported `unknown` (a broken body once drove the
+# nonlinear engine to 13 GB for ten minutes inside its resource budget)
+z3.set_param("memory_max_size", int(os.environ.get("VERIF_Z3_MEM_MB", "6000")))
 CLI_TIMEOUT_S = int(os.environ.get("VERIF_CLI_TIMEOUT_S", "12"))
 
 
